@@ -205,6 +205,10 @@ class StorageProxy:
 
     def load(self, f, *a, **k):
         if isinstance(f, (str, os.PathLike)):
+            if str(f) not in self._fs.files and os.path.exists(str(f)):
+                # the write side bypassed the seam (a refactor opened the file itself): fall back to the real file
+                self._fs.stats['probe.storage_seam_bypassed_on_load'] = self._fs.stats.get('probe.storage_seam_bypassed_on_load', 0) + 1
+                return torch.load(f, *a, **k)
             return torch.load(self._fs.open_read(str(f)), *a, **k)
         return torch.load(f, *a, **k)
 
